@@ -369,6 +369,22 @@ def serial_variant(lines, kind, seed=0):
         vals = [str(x) for x in v]
     elif kind == 'zero':
         vals = ['0'] * n
+    elif kind == 'wide':
+        # every serial fills all five columns: 99990 .. 99999, then the hybrid-36 range A0000, A0001, ...
+        import string as _st
+        digs = _st.digits + _st.ascii_uppercase
+
+        def hy(k):
+            if k < 100000:
+                return '%5d' % k
+            k -= 100000
+            k += 10 * 36 ** 4
+            out_ = ''
+            while k:
+                out_ = digs[k % 36] + out_
+                k //= 36
+            return out_
+        vals = [hy(99990 + k) for k in range(n)]
     elif kind == 'hy36-desc':
         vals = ['A%04d' % (9999 - k) for k in range(n)]
     else:
@@ -395,7 +411,7 @@ sys.exit(1 if d else 0)
 def serial_monitor(pr):
     from . import native
     names = ['3SGB-subset', '1HPX'] if pr.tier == 'quick' else ['3SGB-subset', '1HPX', '4DFR', '3SGB', '1FTJ-Chain-A']
-    kinds = ['reversed', 'zero'] if pr.tier == 'quick' else ['reversed', 'shuffled', 'zero', 'hy36-desc']
+    kinds = ['reversed', 'zero', 'wide'] if pr.tier == 'quick' else ['reversed', 'shuffled', 'zero', 'wide', 'hy36-desc']
     ev, viol = 0, []
     for name in names:
         lines = native.pdb_lines(name)
